@@ -2,6 +2,7 @@ package keeper
 
 import (
 	"context"
+	"errors"
 
 	"cosmossdk.io/math"
 )
@@ -30,7 +31,16 @@ func (k Keeper) GetZkpThreshold(ctx context.Context, shardCount uint64) (uint64,
 		return 0, err
 	}
 	replicationFactor := math.LegacyMustNewDecFromStr(params.ReplicationFactor) // TODO: remove with Dec
-	threshold := min(max(replicationFactor.MulInt64(int64(shardCount)).QuoInt64(int64(numActiveValidators)).Ceil().TruncateInt64(), 1), int64(shardCount))
+	if numActiveValidators == 0 {
+		return 0, errors.New("no active validator")
+	}
+	// min(max(ceil(replication_factor * shard_count / active_validators), 1), shard_count);
+	// compared as decimals: the quotient need not fit an int64
+	thresholdDec := replicationFactor.MulInt64(int64(shardCount)).QuoInt64(int64(numActiveValidators)).Ceil()
+	threshold := int64(shardCount)
+	if thresholdDec.LT(math.LegacyNewDec(int64(shardCount))) {
+		threshold = max(thresholdDec.TruncateInt64(), 1)
+	}
 
 	return uint64(threshold), nil
 }
